@@ -567,7 +567,8 @@ Definition td_timerloop (s : td_state) : list td_state :=
 Definition td_timercb (s : td_state) : list td_state :=
   if negb (td_tcl s) && negb (td_lk s) && negb (td_awake s) then [td_set_awake true s] else [].
 
-(* T1-init / T1-cookie exhausted: onRetransmissionFailure -> completeHandshake(err) under a.lock *)
+(* T1-init / T1-cookie exhausted: rtxTimer.timeout decides "failure" under the timer's mutex (TdTfFired);
+   onRetransmissionFailure then takes a.lock, re-checks the state and calls completeHandshake(err) *)
 Definition td_t1fail (c : td_cfg) (s : td_state) : list td_state :=
   match td_tf s with
   | TdTfIdle =>
@@ -575,7 +576,14 @@ Definition td_t1fail (c : td_cfg) (s : td_state) : list td_state :=
       | TdPhHs, TdStHs => if td_c_t1fail c && negb (td_tcl s) then [td_set_tf TdTfFired s] else []
       | _, _ => []
       end
-  | TdTfFired => if td_lk s then [] else [td_set_tf TdTfBlocked (td_set_lk true s)]
+  | TdTfFired =>
+      (* onRetransmissionFailure: a.lock.Lock(); the failure is stale if the handshake has moved on in the
+         meantime (state no longer cookieWait / cookieEchoed): return without reporting it (fix c7c80cb) *)
+      if td_lk s then []
+      else match td_st s with
+           | TdStHs => [td_set_tf TdTfBlocked (td_set_lk true s)]
+           | _ => [td_set_tf TdTfDone s]
+           end
   | TdTfBlocked =>
       (match td_cw s with
        | TdCwWait => [td_set_tf TdTfDone (td_set_lk false (td_set_cw TdCwErrCl0 s))]
